@@ -82,8 +82,8 @@ pub fn spec() -> PropSpec {
             Family { name: "multi", f: fam_multi, weight: 25 },
             Family { name: "big", f: fam_big, weight: 5 },
         ],
-        quick_worlds: 80_000,
-        thorough_worlds: 1_200_000,
+        quick_worlds: 160_000,
+        thorough_worlds: 2_400_000,
         panic_is_violation: false,
         rule: "each world = one seeded execution (choice list) of 1-4 connections with an event-driven stream workload on both peers under a seeded fault schedule; non-trivial = at least one fault fired or more than one connection; distinct = distinct abstract-event signature (sequence of event kinds / routing outcomes / auxiliary operations, no sizes or times)",
         assumptions: vec!["oracle compares every delivered chunk with a keyed data pattern and the sending application's own ledger", "ciphertext bytes are not part of the model (rustls/ring randomness only affects ciphertext)"],
